@@ -9,6 +9,9 @@ NOTE = ("trusted: Lean 4.33 kernel; axioms propext/Classical.choice/Quot.sound o
 TECH = "Lean 4 theorems over a model tied to the source by regenerated fact tables and by differential correspondence (impl vs compiled Lean model)"
 # id -> (claimed?, level text, design ref, reason if not claimed)
 CLAIMS = {
+ "C11": ("theorems on the executable basket model (mint/burn/swap, limits history, bank slice) for all configurations and all histories: supply = recorded amount and module balance - (reserves+surplus) constant (inv_run, induction over op lists incl. weight changes/edits), minted = floor(value), burn bounds (out <= reserve; bound against supply AFTER the burn) with the pro-rata statement refuted by a closed witness (known finding), swap value bound with the explicit 1e-18 Quo slack, flags/minimums/period limits/caps respected by every successful op; correspondence: real BasketKeeper msg server on generated multi-holder histories over generated configurations, implementation vs Lean model line by line, property oracle on the implementation after every op", "section 5 C11"),
+ "C17": ("theorems over an executable model of the custody message server and of CustodyDecorator (all 16 custody messages, bank MsgSend/MsgMultiSend, TargetAddress redirection, tombstone maps, vote store keyed by raw hash, limit bookkeeping in uint64): key preimage checked exactly for the seven listed message kinds (iff), plain bank send of a guarded account always rejected, vote count bounded by stored approval entries over every history (inductive invariant of the transaction loop), release pays exactly the recorded transfer once; full statements with machine-checked counterexamples for nine confirmed defects, each replayed on the real code; correspondence: signed transactions through the real ante chain (1 per block), owner/custodians/strangers x thresholds x password/whitelist/limits, result class and full custody dump of all accounts compared line by line with the Lean model", "section 5 C17"),
+ "C20": ("theorems over an executable model of x/layer2 bonds + LP as coded (create/bond/reclaim, EndBlocker bootstrap finish incl. the prefix scan of GetUserDappBonds, UpsertDapp proposal, LP handlers, keeper-level constant-product functions with exact sdk.Int/sdk.Dec rounding), for ALL op sequences: user bond = deposited - paid back (ghost ledger moved only with the bank transfer), TotalBond = sum of user bonds, TotalBond <= max (partial: creation unchecked), refund in full (partial), module holds the recorded bonds at message and keeper level (partial), LP messages always rejected as coded, keeper-level single round trip out <= in under the fair-price hypothesis; 7 counterexample theorems from closed witnesses, each replayed on the real code; correspondence: every op + full observation (dApp records, user bonds, balances, supplies) of several users x two dApps, implementation vs Lean model line by line, with the property's oracle evaluated on the implementation after every op", "section 5 C20"),
  "C05": ("theorems: Sync invariant (statuses, removing / reactivating queues, consensus set), sync_step (every operation inside the hypotheses preserves it), sync_block (after ANY sequence of such operations in a block the returned updates are applicable - no removal of an absent key, no key twice - and the new consensus set is exactly the active set), sync_after_drain (blocks compose); the operations the hypotheses exclude are exactly the recorded findings, each with a closed counterexample evaluated on the list-level model that includes CometBFT's UpdateWithChangeSet rules. Correspondence: real blocks through ABCI (BeginBlock signature handling, owner messages as signed transactions, keeper-level jail / unjail proposal / rank reset / keeper Pause) with every update list applied to a real CometBFT ValidatorSet, vs the Lean model (statuses, ranks, streaks, mischance counters, both queues, update lists, applicability verdict, consensus set compared after every block)", "section 5 C05"),
  "C15": ("theorems for every state: transitions (each operation changes only its target and only along its edge: pause A->P, unpause P->A, activate I->A not before inactive-until, downtime A->I only past max mischance, jail ->J, unjail J->I within the unjail window), evidence_jails, downtime_inactivates, signer_never_punished, rank_streak_nonneg (using exact LegacyDec rounding), leaves_jail_only_by; the two edges of the code that contradict the property are findings with closed witnesses. Correspondence: shared with C05 (same real-block harness; per-operation status edges observed on the implementation)", "section 5 C15"),
  "C13": ("theorems: inflation_bound (supply after AllocateTokens <= max(supply, snapshot + floor(snapshot*rate*dt/period) + 1), all inputs, from exact LegacyDec rounding lemmas), annual_gate + gate_closed_iff, ubi_hardcap_partial / ubi_hardcap_counterexample (real uint64 arithmetic: the hard-cap test is exact without wrap-around and FALSE with it - recorded finding), ubi_once_per_period, supply_tracks_mints, supply_le_cap, owner_cannot_raise_cap, mint_burn_sites (regenerated table of every MintCoins/BurnCoins call site). Correspondence: the real distributor keeper, UBI proposal handler and EndBlocker, tokens keeper and msg server vs the Lean functions on boundary-heavy inputs", "section 5 C13"),
